@@ -61,7 +61,8 @@ Definition handlers_follow_split (split : list (string * list string)) (t : list
                            | None => false
                            end) day_phase_events.
 Definition closed_phase_events : list string :=
-  ["PRE_BEFORE_TRADING"; "BEFORE_TRADING"; "POST_BEFORE_TRADING"; "PRE_AFTER_TRADING"; "AFTER_TRADING"; "POST_AFTER_TRADING"].
+  ["PRE_BEFORE_TRADING"; "BEFORE_TRADING"; "POST_BEFORE_TRADING"; "PRE_AFTER_TRADING"; "AFTER_TRADING"; "POST_AFTER_TRADING";
+   "PRE_SETTLEMENT"; "SETTLEMENT"; "POST_SETTLEMENT"].      (* settlement comes after the close: trades it raises (expiry, delisting) must not let a handler order *)
 
 (* EventBus.publish_event: the system listeners in registration order until one returns a truthy value, then every user listener.
    `delivered ls e` = how many system listeners the event reaches. *)
